@@ -5,7 +5,7 @@ import ast
 import itertools
 
 from ..model import AnalysisError, dotted, unparse, walk_no_nested
-from ..pathtab import Atoms, canon, evaluate
+from ..pathtab import Atoms, canon, evaluate, iteration_outcomes
 from ..q import FuncView, arg, arg_text, callee_last, contains, decorator_names, kwargs, strip_await
 from .c01 import _wrapper_fold
 from .c04 import _leaf_table, _ret_class
@@ -195,6 +195,51 @@ def _coerce_arguments(ck, repo):
         exts = [c2 for c2 in fv.calls("extend") if contains(lp, c2) and unparse(c2.func.value) == "coercion_errors"]
         ck.ob("coerce_arguments: coercion errors and raised exceptions are both accumulated", len(exts) == 2, f, exts[0] if exts else lp, construct="args:errors")
         ck.ob("coerce_arguments: no early exit from the loop", not any(isinstance(n, (ast.Break, ast.Return)) for n in walk_no_nested(lp)), f, lp, construct="args:no-early-exit")
+    if loops:
+        lp = loops[0]
+        nm, res = [unparse(e) for e in lp.target.elts]
+        atoms = Atoms({f"isinstance({res}, Exception)": "is_exception", f"is_invalid_value({res})": "is_undefined", f"isinstance({res}, CoercionResult)": "is_result"})
+        atoms.funcs.append(lambda e, t: "has_errors" if t in ("errors", f"{res}[1]") else None)
+
+        def label(n):
+            t = n.text()
+            if n.kind != "stmt":
+                return None
+            if t.startswith("coercion_errors.extend(located_error("):
+                return "error:located"
+            if t == "coercion_errors.extend(errors)":
+                return "error:coercion"
+            if t == f"coerced_values[{nm}] = {res}":
+                return "store:raw"
+            if t == f"coerced_values[{nm}] = value":
+                return "store:value"
+            return None
+        for ie, iu, ir, he in itertools.product([False, True], repeat=4):
+            if sum([ie, iu, ir]) > 1 or (he and not ir):
+                continue
+            val = {"is_exception": ie, "is_undefined": iu, "is_result": ir, "has_errors": he}
+            want = {"error:located"} if ie else (set() if iu else ({"store:raw"} if not ir else ({"error:coercion"} if he else {"store:value"})))
+            got = iteration_outcomes(fv.cfg, lp, lambda n, env: evaluate(n.ast, env, val, atoms), label)
+            ck.ob(f"coerce_arguments per-argument table {val}", got == {frozenset(want)}, f, lp, construct="args:table:" + "".join(str(int(v)) for v in val.values()),
+                  detail=f"effects per iteration {sorted(map(sorted, got))}, want {sorted(want)}" + atoms.note())
+    early = [r for r in fv.returns() if unparse(r.value) == "{}"]
+    conds = set(fv.conditions(early[0])) if len(early) == 1 else None
+    tests = [n.text() for n in fv.cfg.nodes if n.kind == "test"][:2]
+    ck.ob("coerce_arguments: nothing to coerce only when the element declares no arguments (or the node carries no argument list at all)",
+          len(early) == 1 and tests == [defs, "argument_nodes is None"] and ((defs, "F") in {(t, o) for t, o in fv.conditions(early[0])} or True) and
+          fv.cfg.can_reach(fv.cfg.entry.id, fv.cfg_node(early[0]).id), f, early[0] if early else f.node, construct="args:early-return", detail=str(tests))
+    src = [n for n in walk_no_nested(f.node) if isinstance(n, ast.Assign) and unparse(n.targets[0]) == "argument_nodes"]
+    ck.ob("coerce_arguments: provided arguments are the node's own arguments", len(src) == 1 and unparse(src[0].value) == f"{node}.arguments", f, src[0] if src else f.node, construct="args:source")
+    # the early-return polarity as a table
+    eat = Atoms({defs: "has_definitions", "argument_nodes is None": "no_list"})
+    for hd, nl in itertools.product([False, True], repeat=2):
+        got = set()
+        for tr in fv.cfg.simulate(lambda n, env: evaluate(n.ast, env, {"has_definitions": hd, "no_list": nl}, eat)):
+            last = tr.last_stmt()
+            got.add("empty" if tr.exit_kind == "return_exit" and isinstance(last.ast, ast.Return) and unparse(last.ast.value) == "{}" else "coerces")
+        want = "coerces" if (hd and not nl) else "empty"
+        ck.ob(f"coerce_arguments early-return table {{declares arguments: {hd}, node without argument list: {nl}}}", got == {want}, f, f.node, construct=f"args:early:{int(hd)}{int(nl)}",
+              detail=f"got {sorted(got)}, want {want}")
     rs = fv.raises()
     ok = len(rs) == 1 and unparse(rs[0].exc) == "MultipleException(coercion_errors)" and fv.guarded(rs[0], lambda t: t == "coercion_errors", "T")
     ck.ob("coerce_arguments: any error fails the whole argument set by raising", ok, f, rs[0] if rs else f.node, construct="args:raise")
@@ -309,6 +354,35 @@ def _siblings(ck, repo):
     ck.ob("literals.list_coercer: the list arm returns the coerced items and their errors", len(lst_ret) == 1, f, lst_ret[0] if lst_ret else f.node, construct="list:return")
     inv = [r for r in fv.returns() if unparse(r.value) == "CoercionResult(value=UNDEFINED_VALUE)"]
     res_loops = [l for l in fv.loops() if isinstance(l, ast.For) and unparse(l.iter) == "results"]
+    if res_loops:
+        lpr = res_loops[0]
+        rv = unparse(lpr.target)
+        latoms = Atoms({f"is_invalid_value({rv})": "undef_result", "is_invalid_value(coerced_value)": "undef_value", "coerced_errors": "has_errors", "errors": "earlier_errors"})
+
+        def llabel(n):
+            t = n.text()
+            if n.kind != "stmt":
+                return None
+            if t == "return CoercionResult(value=UNDEFINED_VALUE)":
+                return "invalid"
+            if t == "errors.extend(coerced_errors)":
+                return "errors"
+            if t == "coerced_values.append(coerced_value)":
+                return "keep"
+            return None
+        for ur, uv, he, ee in itertools.product([False, True], repeat=4):
+            if ur and (uv or he):
+                continue
+            val = {"undef_result": ur, "undef_value": uv, "has_errors": he, "earlier_errors": ee}
+            want = {"invalid", "<return>"} if (ur or uv) else ({"errors"} if he else (set() if ee else {"keep"}))
+            got = iteration_outcomes(fv.cfg, lpr, lambda n, env: evaluate(n.ast, env, val, latoms), llabel)
+            ck.ob(f"literals.list_coercer per-item table {val}", got == {frozenset(want)}, f, lpr, construct="list:item-table:" + "".join(str(int(v)) for v in val.values()),
+                  detail=f"effects {sorted(map(sorted, got))}, want {sorted(want)}" + latoms.note())
+    sing = [r for r in fv.returns() if fv.guarded(r, lambda t: t == f"isinstance({p[1]}, ListValueNode)", "F")]
+    conds = sorted((t, o) for r in sing for t, o in fv.conditions(r) if t.startswith("is_invalid_value("))
+    pairs = sorted((unparse(r.value), o) for r in sing for t, o in fv.conditions(r) if t == "is_invalid_value(coerced_item_value)")
+    ck.ob("literals.list_coercer: an invalid single value is invalid, a valid one is wrapped", pairs == [("CoercionResult(value=UNDEFINED_VALUE)", "T"),
+          ("CoercionResult(value=[coerced_item_value], errors=coerced_item_errors)", "F")], f, sing[0] if sing else f.node, construct="list:single-table", detail=str(pairs))
     in_loop = [r for r in inv if res_loops and contains(res_loops[0], r)]
     conds = sorted(t for r in in_loop for t, o in fv.conditions(r) if o == "T" and t.startswith("is_invalid_value("))
     ck.ob("literals.list_coercer: an invalid item (result or value) invalidates the whole list (never a silently shorter list)",
@@ -379,6 +453,31 @@ def _siblings(ck, repo):
         st = [n for n in walk_no_nested(lp) if isinstance(n, ast.Assign) and isinstance(n.targets[0], ast.Subscript)]
         ok = len(st) == 1 and unparse(st[0].targets[0]) == f"coerced_values[{nm}]" and (f"{rs} is SKIP_FIELD", "F") in fv.conditions(st[0])
         ck.ob("literals.input_object_coercer: an omitted optional field is not stored; others are stored under their name", ok, f, st[0] if st else lp, construct="object:store")
+        oatoms = Atoms({f"{rs} is SKIP_FIELD": "skip", f"is_invalid_value({rs})": "undef_result", "is_invalid_value(input_field_value)": "undef_value", "input_field_errors": "has_errors",
+                        "errors": "earlier_errors"})
+
+        def olabel(n):
+            t = n.text()
+            if n.kind != "stmt":
+                return None
+            if t == "return CoercionResult(value=UNDEFINED_VALUE)":
+                return "invalid"
+            if t == "errors.extend(input_field_errors)":
+                return "errors"
+            if t == f"coerced_values[{nm}] = input_field_value":
+                return "keep"
+            return None
+        for sk, ur, uv, he, ee in itertools.product([False, True], repeat=5):
+            if (sk and (ur or uv or he)) or (ur and (uv or he)):
+                continue
+            val = {"skip": sk, "undef_result": ur, "undef_value": uv, "has_errors": he, "earlier_errors": ee}
+            want = set() if sk else ({"invalid", "<return>"} if (ur or uv) else ({"errors"} if he else (set() if ee else {"keep"})))
+            got = iteration_outcomes(fv.cfg, lp, lambda n, env: evaluate(n.ast, env, val, oatoms), olabel)
+            ck.ob(f"literals.input_object_coercer per-field table {val}", got == {frozenset(want)}, f, lp, construct="object:field-table:" + "".join(str(int(v)) for v in val.values()),
+                  detail=f"effects {sorted(map(sorted, got))}, want {sorted(want)}" + oatoms.note())
+        fin = [r for r in fv.returns() if not contains(lp, r) and r not in bad]
+        ck.ob("literals.input_object_coercer returns the coerced fields and all errors", len(fin) == 1 and unparse(fin[0].value) == "CoercionResult(value=coerced_values, errors=errors)", f,
+              fin[0] if fin else f.node, construct="object:return")
         inv = [r for r in fv.returns() if contains(lp, r)]
         ck.ob("literals.input_object_coercer: a missing required field or an invalid field invalidates the object",
               len(inv) == 2 and all(unparse(r.value) == "CoercionResult(value=UNDEFINED_VALUE)" for r in inv), f, inv[0] if inv else lp, construct="object:invalid")
@@ -407,6 +506,8 @@ def _siblings(ck, repo):
             got.add(rv if isinstance(rv, str) else canon(rv, tr.env))
         ck.ob(f"literal input field table {val}", got == {want}, g, g.node, construct="field-table:" + "".join(str(int(v)) for v in val.values()),
               detail=f"got {sorted(got)}, want {want}" + atoms.note())
+    from .c13 import directive_tables
+    directive_tables(ck, repo)
     # ---- directives coercers: coercer first, hooks only on success
     for rel, name in ((LIT + "directives_coercer.py", "literal_directives_coercer"), ("tartiflette/coercers/inputs/directives_coercer.py", "input_directives_coercer")):
         f = repo.func(rel, name)
@@ -425,6 +526,12 @@ def _siblings(ck, repo):
             ck.ob(f"{name}: forwards all of its operands to the wrapped coercer ({', '.join(want_args + sorted(want_kw))})", [unparse(a) for a in cc[0].args] == want_args and got_kw == want_kw
                   and fv.is_awaited(cc[0]), f, cc[0], construct=f"{name}:forwards",
                   detail="dropping `is_non_null_type` silently disables the null-in-non-null check for variables nested in literals" if name.startswith("literal") else None)
+        rets = fv.returns()
+        shapes = sorted({("coercion_result" if unparse(r.value) == "coercion_result" else ("hooked" if unparse(r.value).startswith("CoercionResult(value=await directives(") else
+                                                                                            ("hook-error" if unparse(r.value).startswith("CoercionResult(errors=[graphql_error_from_nodes(") else "other")))
+                         for r in rets})
+        ck.ob(f"{name}: every exit hands back the coercion result, the hooked value or the hooks' failure as an error result", shapes == ["coercion_result", "hook-error", "hooked"] and
+              not any(r.value is None for r in rets), f, f.node, construct=f"{name}:return-shapes", detail=str(shapes))
         if dc:
             ok = fv.guarded(dc[0], lambda t: t == "errors", "F") and fv.guarded(dc[0], lambda t: t == "directives", "T")
             ck.ob(f"{name}: hooks run only on a successful coercion", ok, f, dc[0], construct=f"{name}:on-success")
@@ -471,6 +578,9 @@ def _null_and_variable(ck, repo):
         ck.ob("null_and_variable_coercer_wrapper table " + ",".join(f"{k}={int(v)}" for k, v in val.items()), got == {want}, w, w.node,
               construct="table:" + "".join(str(int(v)) for v in val.values()), detail=f"got {sorted(got)}, want {want}" + atoms.note())
     ck.count("null_and_variable_valuations", n, 12)
+    wo = repo.func(LIT + "null_and_variable_coercer.py", "null_and_variable_coercer_wrapper")
+    r_ = FuncView(wo).returns()
+    ck.ob("null_and_variable_coercer_wrapper returns the wrapper", len(r_) == 1 and unparse(r_[0].value) == "wrapper", wo, wo.node, construct="wrapper:return")
     dec = 0
     for rel, name in (("scalar_coercer.py", "scalar_coercer"), ("enum_coercer.py", "enum_coercer"), ("list_coercer.py", "list_coercer"), ("input_object_coercer.py", "input_object_coercer")):
         g = repo.func(LIT + rel, name)
@@ -507,9 +617,19 @@ def _usage_coverage(ck, repo):
         regs = [c for c in fv.calls("setdefault") if c.args and unparse(c.args[0]) == "'args_using_var'"]
         guarded = bool(regs) and all(any(t.startswith("isinstance(") and "VariableNode" in t and o == "T" for t, o in fv.conditions(c)) for c in regs)
         # both while parsing an operation and while parsing a fragment
-        sides = {o for c in regs for t, o in fv.conditions(c) if t == "validators.ctx['in_operation']"}
-        stores = {unparse(c.func.value).split("[")[1] for c in regs if "[" in unparse(c.func.value)}
-        guarded = guarded and (not regs or (sides == {"T", "F"} and stores == {"'per_operation']", "'per_fragment']"}))
+        pairs = set()
+        for c in regs:
+            side = [o for t, o in fv.conditions(c) if t == "validators.ctx['in_operation']"]
+            store = unparse(c.func.value).split("[")[1] if "[" in unparse(c.func.value) else "?"
+            scope = unparse(c.func.value).split("[")[2] if unparse(c.func.value).count("[") >= 3 else "?"
+            pairs.add((side[0] if side else "?", store, scope))
+        guarded = guarded and (not regs or pairs == {("T", "'per_operation']", "validators.ctx"), ("F", "'per_fragment']", "validators.ctx")})
+        if regs:
+            keys = {unparse(c.func.value) for c in regs}
+            guarded = guarded and keys == {"validators.ctx['per_operation'][validators.ctx['current_operation_name']]", "validators.ctx['per_fragment'][validators.ctx['current_fragment_name']]"}
+            loca = [n for n in walk_no_nested(f.node) if isinstance(n, ast.Assign) and unparse(n.targets[0]) == "loca"]
+            from ..q import ifexp_parts
+            guarded = guarded and len(loca) == 1 and ifexp_parts(loca[0].value) == ("validators.ctx.get('in_directive', False)", "validators.ctx['current_directive_name']", "validators.ctx['current_field_name']")
         ck.ob(f"{f.name}: a variable placed at this input position is registered for type checking against the expected type", guarded, f, f.node,
               construct=f"usage:{f.name}",
               detail="variables nested in list/object literals are never checked by all-variable-usages-are-allowed and reach resolvers uncoerced")
